@@ -676,3 +676,28 @@ def identifier_site(func_short, cls_short, key):
         except Exception as e:
             return f"alias 'new{{row}}' raises {type(e).__name__}: {e}"
     return None
+
+
+def roundtrip(cls_short):
+    """C15: copy / deepcopy / pickle of universe objects render identically"""
+    from . import Q, Table
+    objs = universe() + [("db_table", Table("x", schema=Q.Database("d").s)), ("db_field", Table("x", schema=Q.Database("d").s).f),
+                         ("database", Q.Database("d")), ("schema", Q.Schema("s"))]
+    for label, obj in objs:
+        base = render_all(obj)
+        mechs = [("copy", copy.copy), ("deepcopy", copy.deepcopy)] + \
+            [(f"pickle[protocol {p}]", (lambda o, p=p: pickle.loads(pickle.dumps(o, p)))) for p in range(pickle.HIGHEST_PROTOCOL + 1)]
+        for mech, f in mechs:
+            try:
+                d = f(obj)
+            except Exception as e:
+                return f"{mech}({label}) raises {type(e).__name__}: {e}"
+            got = _noaddr(render_all(d))
+            if got != _noaddr(base):
+                return f"{mech}({label}) renders differently: {_diff(_noaddr(base), got)}"
+    return None
+
+
+def _noaddr(res):
+    import re
+    return {k: re.sub(r" at 0x[0-9a-f]+", "", repr(v)) for k, v in res.items()}
